@@ -231,27 +231,7 @@ def run(R):
             nxt = [x for x, t, w_ in whole_buffer_takes(b) if b.dominates(bb, x)]
             R.check(bool(nxt), 'C06.R3', 'stash-then-flush', site(b, bb, i), 'a stored error is followed by flushing the buffer (split_to sites dominated: %d)' % len(nxt))
         # failure arm of encode_item: truncate to the offset saved before the call
-        eb, et = b.call1(name='encode_item')
-        # what can follow a failed encode_item (its result known to be Err on the path), without passing a truncate
-        dest = et['dest']['l']
-        truncs = [(x, t) for x, t in b.calls(name='truncate') if mentions_local_named(b, b.origin(t['args'][0]), encode_buf_field(tonic))]
-        after_fail = b.reach_ps(et['t'], know0={dest: ('v', 'Err', None)})
-        uncut = b.reach_ps(et['t'], know0={dest: ('v', 'Err', None)}, removed={x for x, _ in truncs})
-        exits = [x for x in sorted(uncut) if b.term(x)['k'] == 'ret' or (b.term(x)['k'] == 'call' and b.term(x).get('name') in ('split_to', 'split', 'poll_next', 'encode_item') and x != eb)]
-        R.check(bool(truncs) and not exits, 'C06.R3', 'partial-frame-cut', site(b, exits[0]) if exits else site(b, eb),
-                'after a failed encode_item every path to a flush, a return or the next poll first cuts the partial frame off (truncate sites %d; uncut exits %r)' % (len(truncs), [b.loc(x) for x in exits][:4]))
-        for tx, tt in truncs:
-            if tx not in after_fail:
-                continue
-            off = strip_refs(b.origin(tt['args'][1]))
-            okt = False
-            if is_call(off, name='len') and mentions_local_named(b, off, encode_buf_field(tonic)):
-                # saved after this iteration's source poll and before encode_item (a value hoisted out of the loop would be
-                # the length before the *first* message of the batch)
-                lb = [bb for bb, lt in b.calls(name='len') if lt is off[4]]
-                srcp = [bb for bb, st_ in b.calls(pat='Stream::poll_next')]
-                okt = bool(lb) and b.dominates(lb[0], eb) and bool(srcp) and all(b.dominates(sp_, lb[0]) for sp_ in srcp)
-            R.check(okt, 'C06.R3', 'partial-frame-cut:offset', site(b, tx), 'truncate(buf, offset) with offset = buf.len() saved in the same iteration, after the source poll and before encode_item: %r' % okt)
+        check_partial_frame_cut(R, tonic, 'C06.R3')
         # every split_to yields the whole buffer
         for x, t, w_ in whole_buffer_takes(b):
             a = strip_refs(b.origin(t['args'][1])) if len(t['args']) > 1 else ('whole',)
@@ -415,16 +395,3 @@ def run(R):
                 R.check(okw, 'C06.R4', 'setter:%s:%s' % (crate_path.split('::')[0], f), site(sb), 'setter writes field %s from its argument: %r' % (f, okw))
 
 
-def mentions_local_named(b, term, name):
-    """does the term mention a local / argument / projection carrying source name `name`?"""
-    def pred(x):
-        if not isinstance(x, tuple) or not x:
-            return False
-        if x[0] == 'arg' and x[2] == name:
-            return True
-        if x[0] == 'field' and x[2] == name:
-            return True
-        if x[0] == 'local' and b.name_of(x[1]) == name:
-            return True
-        return False
-    return term_contains(term, pred)
